@@ -107,7 +107,8 @@ fn exec_line(ctx: &mut Ctx, line: &str) -> String {
         }
         "c12" => {
             let (v, m) = parse_line(line);
-            if second == "cfg" {
+            if second == "inflate" { c12::exec_inflate(&m) }
+            else if second == "cfg" {
                 ctx.c12 = None;
                 match util::guarded_res(|| c12::open_cfg(&m)) { Ok(c) => { ctx.c12 = Some(c); "ok".into() } Err(e) => { if std::env::var("VERIF_ERR_MSG").is_ok() { eprintln!("ERR: {}", e); } "err-open".into() } }
             } else {
